@@ -16,11 +16,13 @@ Theorem C16_inv_meaning : forall (ow : bool) (sq : nat) (q : q1),
    (0 < cnt q -> tail q = intern q (cnt q - 1)) /\
    match st q with SNull => arr q = [] | SSmall => qsize q = sq | SHeap => sq <= qsize q end /\
    (ow = true -> forall s, s < qsize q -> (forall i, i < cnt q -> intern q i <> s) ->
-      nth s (arr q) dflt = dflt)).
+      nth s (arr q) dflt = dflt) /\
+   (st q <> SSmall ->
+      length (inl q) = sq /\ (ow = true -> forall i, i < sq -> nth i (inl q) dflt = dflt))).
 Proof. exact inv_slots_iff. Qed.
 Print Assumptions C16_inv_meaning.
 
-Theorem C16_inv_empty : forall (ow : bool) (sq : nat), 0 < sq -> inv ow sq empty_q.
+Theorem C16_inv_empty : forall (ow : bool) (sq : nat) (jk : Z), 0 < sq -> inv ow sq (empty_q ow jk sq).
 Proof. exact inv_empty. Qed.
 Print Assumptions C16_inv_empty.
 
